@@ -6,9 +6,12 @@ import (
 	"crypto"
 	"crypto/rsa"
 	"fmt"
+	"sync"
+	"sync/atomic"
 	"testing"
 
 	"github.com/cloudflare/circl/internal/zzverif/lib"
+	"github.com/cloudflare/circl/internal/zzverif/ref/rsapss"
 	tss "github.com/cloudflare/circl/tss/rsa"
 )
 
@@ -19,6 +22,143 @@ import (
 // combined signature must be accepted by crypto/rsa.VerifyPSS under the same
 // options, and under an explicit option naming the salt length that the
 // padder was asked for.
+// TestVerifTSSLargeKeysAndConcurrentPadding: (a) PKCS#1 v1.5 and PSS threshold
+// signatures for moduli of 3072 and 4096 bits (the padding string of PKCS#1
+// v1.5 is then longer than 256 octets) must verify under crypto/rsa; (b) eight
+// goroutines pad, sign and combine at the same time with one set of key
+// shares (hash objects, padders and randomness are per call): every signature
+// must verify.
+func TestVerifTSSLargeKeysAndConcurrentPadding(t *testing.T) {
+	const mon = "TestVerifTSSLargeKeysAndConcurrentPadding"
+	lib.Mandatory("tss-large:verified", "tss-concurrent-padding:verified")
+	one := func(key *rsa.PrivateKey, shares []tss.KeyShare, pss bool, h crypto.Hash, tag string, idx int) error {
+		pub := &key.PublicKey
+		msg := lib.NewRng("c17/large/msg/"+tag, idx).Bytes(30 + idx%40)
+		d := h.New()
+		d.Write(msg)
+		hashed := d.Sum(nil)
+		var padder tss.Padder = &tss.PKCS1v15Padder{}
+		if pss {
+			padder = &tss.PSSPadder{Rand: lib.NewRng("c17/large/salt/"+tag, idx), Opts: &rsa.PSSOptions{SaltLength: rsa.PSSSaltLengthEqualsHash, Hash: h}}
+		}
+		em, err := tss.PadHash(padder, h, pub, msg)
+		if err != nil {
+			return fmt.Errorf("PadHash: %w", err)
+		}
+		var ss []tss.SignShare
+		for _, i := range []int{0, 2} {
+			s, err := shares[i].Sign(lib.NewRng("c17/large/blind/"+tag, idx*4+i), pub, em, false)
+			if err != nil {
+				return fmt.Errorf("Sign: %w", err)
+			}
+			ss = append(ss, s)
+		}
+		sig, err := tss.CombineSignShares(pub, ss, em)
+		if err != nil {
+			return fmt.Errorf("CombineSignShares: %w", err)
+		}
+		if pss {
+			err = rsa.VerifyPSS(pub, h, hashed, sig, &rsa.PSSOptions{SaltLength: rsa.PSSSaltLengthEqualsHash, Hash: h})
+		} else {
+			err = rsa.VerifyPKCS1v15(pub, h, hashed, sig)
+		}
+		if err != nil {
+			return fmt.Errorf("crypto/rsa rejects the threshold signature: %w", err)
+		}
+		return nil
+	}
+	for _, kn := range []string{"plain-3072", "plain-4096"} {
+		key := loadKey(t, kn).k
+		shares, err := tss.Deal(lib.NewRng("c17/large/deal/"+kn, 0), 3, 2, key, true)
+		if err != nil {
+			t.Fatal(err)
+		}
+		for i, c := range []struct {
+			pss bool
+			h   crypto.Hash
+		}{{false, crypto.SHA256}, {false, crypto.SHA512}, {true, crypto.SHA256}} {
+			lib.CaseS("tss-large", kn, fmt.Sprint(i))
+			var err error
+			if pn := lib.Try("tss/rsa:large-key", nil, func() { err = one(key, shares, c.pss, c.h, kn, i) }); pn != nil {
+				err = fmt.Errorf("panic: %s", pn.Value)
+			}
+			if err != nil {
+				lib.Violation("C17:combine-fails:tss-rsa:large-modulus", mon, lib.D("rsa_key", kn, "pss", c.pss, "hash", c.h.String(), "err", err.Error()))
+				continue
+			}
+			lib.Count("tss-large:verified")
+		}
+	}
+	key := loadKey(t, "plain-1024").k
+	shares, err := tss.Deal(lib.NewRng("c17/conc-pad/deal", 0), 3, 2, key, true)
+	if err != nil {
+		t.Fatal(err)
+	}
+	const G = 8
+	rounds := lib.Scale(60, 600)
+	var wg sync.WaitGroup
+	var reported int32
+	start := make(chan struct{})
+	for g := 0; g < G; g++ {
+		wg.Add(1)
+		go func(g int) {
+			defer wg.Done()
+			<-start
+			for i := 0; i < rounds; i++ {
+				var err error
+				if pn := lib.Try("tss/rsa:concurrent-padding", nil, func() { err = one(key, shares, i%4 != 3, crypto.SHA256, "conc", g*10000+i) }); pn != nil {
+					err = fmt.Errorf("panic: %s", pn.Value)
+				}
+				if err != nil {
+					if atomic.AddInt32(&reported, 1) == 1 {
+						lib.Violation("C17:combine-fails:tss-rsa:concurrent-signing-sessions", mon, lib.D("goroutines", G, "goroutine", g, "call", i, "err", err.Error()))
+					}
+					continue
+				}
+				lib.Count("tss-concurrent-padding:verified")
+			}
+		}(g)
+	}
+	close(start)
+	wg.Wait()
+	lib.CaseS("tss-concurrent-padding", "plain-1024")
+	// padding alone, in tight loops (no modular exponentiation between two
+	// paddings): every encoded message must be a valid EMSA-PSS encoding of
+	// its own message
+	lib.Mandatory("tss-concurrent-padding:encodings")
+	pub := &key.PublicKey
+	emBits := pub.N.BitLen() - 1
+	tight := lib.Scale(3000, 30000)
+	var wg2 sync.WaitGroup
+	var rep2 int32
+	start2 := make(chan struct{})
+	for g := 0; g < G; g++ {
+		wg2.Add(1)
+		go func(g int) {
+			defer wg2.Done()
+			<-start2
+			for i := 0; i < tight; i++ {
+				msg := []byte(fmt.Sprintf("padding %d/%d", g, i))
+				var em []byte
+				var err error
+				pn := lib.Try("tss/rsa:concurrent-padding-only", msg, func() {
+					padder := &tss.PSSPadder{Rand: lib.NewRng("c17/pad-only", g*100000+i), Opts: &rsa.PSSOptions{SaltLength: rsa.PSSSaltLengthEqualsHash, Hash: crypto.SHA256}}
+					em, err = tss.PadHash(padder, crypto.SHA256, pub, msg)
+				})
+				lib.Count("tss-concurrent-padding:encodings")
+				d := crypto.SHA256.New()
+				d.Write(msg)
+				ok := pn == nil && err == nil && rsapss.VerifyEM(crypto.SHA256, d.Sum(nil), em[len(em)-(emBits+7)/8:], emBits, 32)
+				if !ok && atomic.AddInt32(&rep2, 1) == 1 {
+					lib.Violation("C17:combine-fails:tss-rsa:concurrent-signing-sessions", mon, lib.D("goroutines", G, "goroutine", g, "call", i, "stage", "PadHash (PSS) alone", "err", fmt.Sprint(err), "panicked", pn != nil, "em", em))
+				}
+			}
+		}(g)
+	}
+	close(start2)
+	wg2.Wait()
+}
+
 func TestVerifTSSPSSOptions(t *testing.T) {
 	const mon = "TestVerifTSSPSSOptions"
 	lib.Mandatory("tss-pss-options:verified")
